@@ -14,6 +14,28 @@ CHECKS = {
     ),
 }
 
+CHECKS["C17"] = dict(
+    category="proof",
+    text="TrafficLightCycle.get_state_at_time_step / cycle_init_timesteps and TrafficLight.get_state_at_time_step are executed symbolically from the real source with symbolic durations, colours, offset and time step; the cycle definition (window of (t-offset) mod total) and periodicity are postconditions discharged by z3 for every cycle length n that is enumerated (n <= 5 quick, <= 8 thorough). Unbounded in all values; the cycle length is a stated structure bound.",
+    note="cycle length enumerated up to a bound (not an induction over n); numpy cumsum/insert/argmax/comparison modelled by their textbook definitions; ints mathematical",
+    technique="deductive: AST symbolic execution of real source + sidecar contracts, VCs discharged by z3; structure (cycle length) enumerated",
+    design_ref="5/C17",
+)
+CHECKS["C05"] = dict(
+    category="proof",
+    text="The transform kernel, all four shape classes, State/PMState.translate_rotate for every state class x position kind x orientation kind, and translate_rotate of trajectory, occupancy, predictions, all four obstacle roles, stop line, lanelet, sign, light, lanelet network, scenario, goal region, planning problem and set are executed symbolically from the real source with symbolic coordinates, translation and angle in [-2pi,2pi]; 'every stored point p -> R(a)(p+t), orientation th -> th+a (mod 2pi), everything else unchanged, never raises' are postconditions discharged by z3 (about 770 obligations). Collections have small concrete sizes (1-3 vertices / states / members); values are unbounded.",
+    note="floats are reals (so 'to rounding accuracy' is an assumption); sin/cos uninterpreted with sin^2+cos^2=1; numpy linear algebra by definition; shapely Polygon/orient as denotations (ring orientation = uninterpreted sign of the canonical area polynomial); make_valid_orientation used through its own contract (proved under C16) in the fan-out contracts; container sizes fixed small",
+    technique="deductive: AST symbolic execution of real source + sidecar contracts + callee contracts, VCs discharged by z3 (nlsat fallback)",
+    design_ref="5/C05",
+)
+CHECKS["C08"] = dict(
+    category="proof",
+    text="GoalRegion.is_reached (with _harmonize_state_types, _check_value_in_interval, Interval/AngleInterval.contains inlined from source) is executed symbolically for every kinematic and point-mass state class x every subset of position/orientation/velocity constraints x goal shape kind, int and float values, one and two goal states; 'reached <=> all constrained attributes satisfied (time in interval, point in shape, heading in angle interval mod 2pi, speed in interval; PM: hypot / atan2)', 'never raises' and 'state and goal unmodified' are discharged by z3; PlanningProblem.goal_reached likewise on a 2-state trajectory.",
+    note="point-in-polygon is the shape's own contains_point (shapely predicate uninterpreted; its geometric truth is C06); atan2/hypot by axioms; floats are reals; trajectory length fixed small",
+    technique="deductive: AST symbolic execution of real source + sidecar contracts, VCs discharged by z3",
+    design_ref="5/C08",
+)
+
 NOT_YET = {}
 
 def main():
